@@ -754,8 +754,16 @@ class MyPyAstVisitor:
         elif hasattr(lvalue, "items"):
             lvalues = list(lvalue.items)
             for lvalue_ in lvalues:
-                if not hasattr(lvalue_, "name"):  # pragma: no cover
-                    raise AttributeError("Expected value to have attribute 'name'.")
+                # Starred targets "a, *b = ..." and nested targets "(a, b), c = ..."
+                if isinstance(lvalue_, mp_nodes.StarExpr):
+                    lvalue_ = lvalue_.expr
+                if isinstance(lvalue_, mp_nodes.TupleExpr):
+                    attributes.extend(self._parse_attributes(lvalue_, unanalyzed_type, is_static))
+                    continue
+
+                if not hasattr(lvalue_, "name"):
+                    # Other targets, e.g. "a, b[0] = ...", do not define attributes
+                    continue
 
                 if self._is_attribute_already_defined(lvalue_.name):
                     continue
